@@ -45,6 +45,34 @@ func c16Package(r *rand.Rand, id string, size int) (*Prog, []c16Decl) {
 	mark := &Func{Name: "mark", Params: []string{"s"}, PTypes: []*Ty{TString}, Results: []*Ty{TInt},
 		Body: []*S{{K: "print", Ln: true, Exprs: []*E{{K: "str", Ty: TString, S: "init"}, v("s", TString)}}, {K: "return", NRes: 1, Exprs: []*E{lenOf(v("s", TString))}}}}
 	p.Funcs = append([]*Func{mark}, p.Funcs...)
+	// a package function that has the name of a builtin: it is in scope in the whole package wherever
+	// it is declared (Go: a package-level declaration shadows the universe scope)
+	customPrint := false
+	if size != 0 && r.Intn(2) == 0 {
+		customPrint = true
+		name := []string{"print", "println"}[r.Intn(2)]
+		custom := &Func{Name: name, Params: []string{"s"}, PTypes: []*Ty{TString},
+			Body: []*S{{K: "print", Ln: true, Fmt: true, Exprs: []*E{{K: "str", Ty: TString, S: "custom"}, v("s", TString)}}}}
+		p.Funcs = append(p.Funcs[:len(p.Funcs)-1], custom, p.Funcs[len(p.Funcs)-1])
+		call := func(arg string) *S {
+			return &S{K: "expr", NRes: 0, E: &E{K: "call", Fn: name, NRes: 0, Args: []*E{{K: "str", Ty: TString, S: arg}}}}
+		}
+		mark.Body = append([]*S{call("in mark")}, mark.Body...)
+		mainFn := p.Funcs[len(p.Funcs)-1]
+		mainFn.Body = append([]*S{call("in main")}, mainFn.Body...)
+		// the generated code must not print through the builtin of that name
+		for _, f := range p.Funcs {
+			if f == custom {
+				continue
+			}
+			walkStmts(f.Body, func(s *S) {
+				if s.K == "print" {
+					s.Fmt = true
+				}
+			}, func(*E) {})
+		}
+		walkStmts(p.Globals, func(s *S) {}, func(*E) {})
+	}
 	nfix := 2 + r.Intn(2)
 	if big {
 		nfix = 4
@@ -62,7 +90,7 @@ func c16Package(r *rand.Rand, id string, size int) (*Prog, []c16Decl) {
 	p.Globals = append(p.Globals, fixed...)
 	// Main shows the fixed items too
 	main := p.Funcs[len(p.Funcs)-1]
-	show := &S{K: "print", Ln: true, Exprs: []*E{{K: "str", Ty: TString, S: "fixed"}, v("base", TInt), v("scaled", TInt), v("iv0", TInt)}}
+	show := &S{K: "print", Ln: true, Fmt: customPrint, Exprs: []*E{{K: "str", Ty: TString, S: "fixed"}, v("base", TInt), v("scaled", TInt), v("iv0", TInt)}}
 	main.Body = append([]*S{show}, main.Body...)
 
 	var decls []c16Decl
@@ -121,7 +149,7 @@ func c16Layouts(c *Ctx, kinds []string, limit int) [][][]int {
 }
 
 func checkC16(c *Ctx) {
-	c.Rule = "packages = seeded random packages (struct types, functions, methods, constants built from earlier constants, variable initialisers with visible side effects, locals and parameters shadowing package-level names); layouts = for packages with <= 7 declarations EVERY state reachable in DeclOrder.tla (all permutations of hoistable declarations x all splits into <= 3 files with the fixed items in order; a deterministic sample of them is loaded in the quick tier), for larger packages layouts sampled by TLC simulation; distinct_nontrivial = distinct (package, layout) pairs loaded"
+	c.Rule = "packages = seeded random packages (struct types, functions, methods, constants built from earlier constants, variable initialisers with visible side effects, a package function named like a builtin (print / println), locals and parameters shadowing package-level names); layouts = for packages with <= 7 declarations EVERY state reachable in DeclOrder.tla (all permutations of hoistable declarations x all splits into <= 3 files with the fixed items in order; a deterministic sample of them is loaded in the quick tier), for larger packages layouts sampled by TLC simulation; distinct_nontrivial = distinct (package, layout) pairs loaded"
 	c.Assumptions = []string{"MiniGo.tla gives the meaning of the canonical form and is calibrated against the Go toolchain on it", "file names are chosen so that their sorted order is the layout's file order"}
 	r := rand.New(rand.NewSource(c.Seed))
 	type pkg struct {
@@ -175,12 +203,15 @@ func checkC16(c *Ctx) {
 					continue
 				}
 				var sb strings.Builder
-				sb.WriteString("package main\n\n")
 				for _, d := range f {
 					sb.WriteString(pk.decls[d-1].text)
 					sb.WriteString("\n")
 				}
-				files["main/"+names[fi]] = sb.String()
+				hdr := "package main\n\n"
+				if strings.Contains(sb.String(), "fmt.") {
+					hdr += "import \"fmt\"\n\n"
+				}
+				files["main/"+names[fi]] = hdr + sb.String()
 				fi++
 			}
 			res := runProgram(files, "main", "main.Main", 0, true, 400000)
